@@ -525,6 +525,9 @@ func (w *Worker) maybeSample(e *Exec, r *HarnessRun) {
 		}
 		m = mm
 	}
+	if sm := e.preferStrict(e.tb.T); sm != nil {
+		m = sm
+	}
 	ps := &PathSample{Pkg: r.Spec.Pkg, Harness: r.Spec.Func, Params: r.Spec.Params, Decisive: len(e.trace), Model: map[string]string{}, raw: m, inputs: e.inputs}
 	var pcs []string
 	for i, c := range e.pc {
